@@ -134,6 +134,11 @@ Theorem C16_duplicate_name_string : forall s x, csv_duplicate_name s = Some x ->
 Proof. exact dup_string. Qed.
 Print Assumptions C16_duplicate_name_string.
 
+(* ... and this variant is produced by nothing else: exactly the texts with a repeated header name get it *)
+Theorem C16_duplicate_variant_iff : forall rs, import_records rs = Err E_DuplicateVariableName <-> exists x, dup_of_records rs = Some x.
+Proof. intros rs. split; [exact (import_dup rs)|intros [x H]; exact (dup_import rs x H)]. Qed.
+Print Assumptions C16_duplicate_variant_iff.
+
 Example C16_example :
   from_csv_string [98;44;97;44;114;13;10; 48;44;49;44;84;10; 34;49;34;44;49;44;102;97;108;115;101;10;10;
                    49;44;48;44;84;114;117;101;13; 48;44;48;44;70]%N
